@@ -1254,11 +1254,9 @@ LINEAR = frozenset(
 
 def no_lazies(o):
     """the receiver of an operation that is not LINEAR: out of domain as soon as it delivers a generator"""
-    if isinstance(o, Memo):
-        return o
     if is_iterator(o):
         def gen():
-            for x in o:
+            for x in (iter(o) if isinstance(o, Memo) else o):
                 if has_lazy(x):
                     raise OOD()
                 yield x
@@ -1299,8 +1297,9 @@ def finalise(o):
         r = {}
         for k, v in o.items():
             fv = finalise(v)
-            if isinstance(k, (tuple, list, frozenset, dict)) or is_iterator(k):
-                raise TypeError('unhashable')       # (the key is converted as well: to a list)
+            fk = finalise(k)            # (the key is converted as well - after the value: a generator among the keys is consumed)
+            if isinstance(fk, (tuple, list, dict)):
+                raise TypeError('unhashable')       # ... and a key that became a list cannot be a key
             r[k] = fv
         return r
     if isinstance(o, frozenset):
